@@ -31,9 +31,10 @@ VARIABLES l,        \* next line
           lv,       \* live secrets: set of [p, sid, op, kid, kind]
           role,     \* kid -> "SK" | "IK" | "DRK"
           pairs,    \* (key, nonce) pairs used by AEAD encryptions of this run
+          sft,      \* p -> time of the last injected Store fault seen by that process
           nviol     \* number of violations reported so far (keeps reporting going without stopping TLC)
 
-mvars == <<l, par, now, store, revAt, ops, fet, lat, kdec, lv, role, pairs, nviol>>
+mvars == <<l, par, now, store, revAt, ops, fet, lat, kdec, lv, role, pairs, sft, nviol>>
 
 ev == TraceLog[l]
 IsEv(e) == l <= Len(TraceLog) /\ ev.e = e /\ l' = l + 1
@@ -44,7 +45,7 @@ P == par.P
 Stamp(t) == t - (t % P)
 
 NoOp == [kind |-> "none", part |-> "", start |-> 0, calls |-> 0, faults |-> 0, sfault |-> FALSE, scope |-> "", skscope |-> "",
-         ikCreated |-> 0, recpart |-> "", op |-> "", reads |-> {}, ikid |-> "", kdecs |-> {}, ikreads |-> 0, ikstores |-> 0]
+         ikCreated |-> 0, recpart |-> "", op |-> "", reads |-> {}, ikid |-> "", kdecs |-> {}, ikreads |-> 0, ikstores |-> 0, ticked |-> FALSE]
 
 Get(id, cr) == {r \in store : r.id = id /\ r.created = cr}
 IsIK(id) == SubSeq(id, 1, 4) = "_IK_"
@@ -58,40 +59,43 @@ Has(f, k) == k \in DOMAIN f
 
 -----------------------------------------------------------------------------
 MInit == /\ l = 1 /\ now = 0 /\ store = {} /\ revAt = {} /\ ops = <<>> /\ fet = <<>> /\ lat = <<>> /\ kdec = <<>>
-         /\ lv = {} /\ role = <<>> /\ pairs = {} /\ nviol = 0
+         /\ lv = {} /\ role = <<>> /\ pairs = {} /\ nviol = 0 /\ sft = <<>>
          /\ par = [E |-> 1, R |-> 1, P |-> 1, run |-> 0, fits |-> TRUE, cfg |-> <<>>]
 
 Reset == /\ IsEv("reset")
          /\ par' = ev /\ now' = ev.now /\ store' = {} /\ revAt' = {} /\ fet' = <<>> /\ lat' = <<>> /\ kdec' = <<>>
          /\ ops' = [p \in DOMAIN ev.cfg |-> NoOp]
-         /\ lv' = {} /\ role' = <<>> /\ pairs' = {} /\ UNCHANGED nviol
+         /\ lv' = {} /\ role' = <<>> /\ pairs' = {} /\ sft' = [p \in DOMAIN ev.cfg |-> -1] /\ UNCHANGED nviol
 
+\* the clock moves; operations in flight are marked so that the interval clauses (C20), which compare an operation's
+\* START time with fetch times, are not applied to an operation during which time passed
 Tick == /\ IsEv("tick") /\ now' = ev.now
-        /\ UNCHANGED <<par, store, revAt, ops, fet, lat, kdec, lv, role, pairs, nviol>>
+        /\ ops' = [p \in DOMAIN ops |-> IF ops[p].kind # "none" THEN [ops[p] EXCEPT !.ticked = TRUE] ELSE ops[p]]
+        /\ UNCHANGED <<par, store, revAt, fet, lat, kdec, lv, role, pairs, nviol, sft>>
 
 Revoke == /\ IsEv("revoke")
           /\ store' = {IF r.id = ev.id /\ r.created = ev.created THEN [r EXCEPT !.revoked = TRUE] ELSE r : r \in store}
           /\ revAt' = revAt \cup {<<ev.id, ev.created, now>>}
-          /\ UNCHANGED <<par, now, ops, fet, lat, kdec, lv, role, pairs, nviol>>
+          /\ UNCHANGED <<par, now, ops, fet, lat, kdec, lv, role, pairs, nviol, sft>>
 
 Bookkeeping == /\ (IsEv("open") \/ IsEv("close") \/ IsEv("skip"))
-               /\ UNCHANGED <<par, now, store, revAt, ops, fet, lat, kdec, lv, role, pairs, nviol>>
+               /\ UNCHANGED <<par, now, store, revAt, ops, fet, lat, kdec, lv, role, pairs, nviol, sft>>
 
 \* a fault the harness injected inside the process (secret allocation / AEAD failure): the operation counts as faulted
 IFault == /\ IsEv("ifault")
           /\ ops' = [ops EXCEPT ![ev.p] = [@ EXCEPT !.faults = @ + 1]]
-          /\ UNCHANGED <<par, now, store, revAt, fet, lat, kdec, lv, role, pairs, nviol>>
+          /\ UNCHANGED <<par, now, store, revAt, fet, lat, kdec, lv, role, pairs, nviol, sft>>
 
 \* SessionFactory.Close: every secret of that factory is released; its caches are gone
 Restart == /\ IsEv("restart")
            /\ Report(IF ev.live > 0 THEN {"C09.ReleasedOnFactoryClose"} ELSE {})
            /\ lv' = {s \in lv : s.p # ev.p}
-           /\ UNCHANGED <<par, now, store, revAt, ops, fet, lat, kdec, role, pairs>>
+           /\ UNCHANGED <<par, now, store, revAt, ops, fet, lat, kdec, role, pairs, sft>>
 
 Start == /\ IsEv("start")
          /\ ops' = [ops EXCEPT ![ev.p] = [NoOp EXCEPT !.kind = ev.kind, !.part = ev.part, !.start = now, !.scope = ev.scope,
                                                     !.skscope = ev.skscope, !.ikCreated = ev.ikCreated, !.recpart = ev.recpart, !.op = ev.op]]
-         /\ UNCHANGED <<par, now, store, revAt, fet, lat, kdec, lv, role, pairs, nviol>>
+         /\ UNCHANGED <<par, now, store, revAt, fet, lat, kdec, lv, role, pairs, nviol, sft>>
 
 -----------------------------------------------------------------------------
 (* metastore calls                                                          *)
@@ -115,6 +119,7 @@ Ms == /\ IsEv("ms")
             /\ store' = IF wrote /\ ~dup THEN store \cup {[id |-> ev.id, created |-> ev.created, kid |-> ev.kid, parent |-> ev.parent, pkid |-> ev.pkid, revoked |-> FALSE]} ELSE store
             /\ role' = IF ev.kid > 0 /\ (wrote \/ rd # {}) THEN (ev.kid :> (IF IsIK(ev.id) THEN "IK" ELSE "SK")) @@ role ELSE role
             /\ Report(c04 \cup c03 \cup c14)
+      /\ sft' = IF ev.fault # "none" /\ ev.call = "Store" THEN [sft EXCEPT ![ev.p] = now] ELSE sft
       /\ UNCHANGED <<par, now, revAt, fet, lat, kdec, lv, pairs>>
 
 Kms == /\ IsEv("kms")
@@ -124,13 +129,13 @@ Kms == /\ IsEv("kms")
               skrec == {r \in store : r.kid = ev.kid /\ ~IsIK(r.id)}
               valid == \E r \in skrec : ~r.revoked /\ now <= r.created + E
               \* C20: a system key is unwrapped by the KMS at most once per factory per revoke-check interval
-              c20 == IF ev.call = "Dec" /\ ~flt /\ o.skscope # "none" /\ par.fits /\ valid /\ Has(kdec, key) /\ now <= kdec[key] + R
+              c20 == IF ev.call = "Dec" /\ ~flt /\ o.skscope # "none" /\ par.fits /\ ~o.ticked /\ valid /\ Has(kdec, key) /\ now <= kdec[key] + R
                      THEN {"C20.KmsUnwrapOncePerInterval"} ELSE {}
           IN /\ ops' = [ops EXCEPT ![ev.p] = [o EXCEPT !.calls = @ + 1, !.faults = @ + (IF flt THEN 1 ELSE 0),
                                                       !.kdecs = @ \cup (IF ev.call = "Dec" /\ ~flt THEN {ev.kid} ELSE {})]]
              /\ role' = IF ev.kid > 0 THEN (ev.kid :> "SK") @@ role ELSE role
              /\ Report(c20)
-       /\ UNCHANGED <<par, now, store, revAt, fet, lat, kdec, lv, pairs>>
+       /\ UNCHANGED <<par, now, store, revAt, fet, lat, kdec, lv, pairs, sft>>
 
 -----------------------------------------------------------------------------
 (* C03: envelope discipline at the AEAD                                     *)
@@ -148,20 +153,20 @@ Aead == /\ IsEv("aead")
            IN /\ role' = IF payloadEnc THEN (ev.key :> "DRK") @@ role ELSE role
               /\ pairs' = IF enc THEN pairs \cup {<<ev.key, ev.nonce>>} ELSE pairs
               /\ Report(c1 \cup c2 \cup c3 \cup c4)
-        /\ UNCHANGED <<par, now, store, revAt, ops, fet, lat, kdec, lv>>
+        /\ UNCHANGED <<par, now, store, revAt, ops, fet, lat, kdec, lv, sft>>
 
 -----------------------------------------------------------------------------
 (* C09: secrets                                                             *)
 Alloc == /\ IsEv("alloc")
          /\ lv' = lv \cup {[p |-> ev.p, sid |-> ev.sid, op |-> ev.op, kid |-> ev.kid, kind |-> ev.kind]}
-         /\ UNCHANGED <<par, now, store, revAt, ops, fet, lat, kdec, role, pairs, nviol>>
+         /\ UNCHANGED <<par, now, store, revAt, ops, fet, lat, kdec, role, pairs, nviol, sft>>
 Free == /\ IsEv("free")
         /\ lv' = {s \in lv : ~(s.p = ev.p /\ s.sid = ev.sid)}
         /\ Report(IF ~\E s \in lv : s.p = ev.p /\ s.sid = ev.sid THEN {"C09.ReleasedTwice"} ELSE {})
-        /\ UNCHANGED <<par, now, store, revAt, ops, fet, lat, kdec, role, pairs>>
+        /\ UNCHANGED <<par, now, store, revAt, ops, fet, lat, kdec, role, pairs, sft>>
 Misuse == /\ (IsEv("double-close") \/ IsEv("use-after-close"))
           /\ Report({IF ev.e = "double-close" THEN "C09.ReleasedTwice" ELSE "C09.TouchedAfterRelease"})
-          /\ UNCHANGED <<par, now, store, revAt, ops, fet, lat, kdec, lv, role, pairs>>
+          /\ UNCHANGED <<par, now, store, revAt, ops, fet, lat, kdec, lv, role, pairs, sft>>
 
 -----------------------------------------------------------------------------
 (* operation return: the per-operation clauses                              *)
@@ -172,7 +177,7 @@ Ret == /\ IsEv("ret")
               t == o.start
               pc == par.cfg[ev.p]
               nocache == pc.ik = "none" /\ ~pc.sk
-              cached == o.scope # "none" /\ par.fits
+              cached == o.scope # "none" /\ par.fits /\ ~o.ticked
               common ==
                  (IF ev.panic # "" THEN {"C01/C07.NoPanicNoInputMutation"} ELSE {})
                  \cup (IF Len(ev.dirty) > 0 THEN {"C10.PlaintextKeyCopiesWiped"} ELSE {})
@@ -198,8 +203,8 @@ Ret == /\ IsEv("ret")
                     \cup (IF ~o.sfault /\ t > c + E THEN {"C04.NoExpiredIK"} ELSE {})
                     \cup (IF ~o.sfault /\ ikr # {} /\ t > par0 + E + R
                           THEN {IF dref THEN "C04.ParentExpiryBounded/decrypt-refresh" ELSE "C04.ParentExpiryBounded"} ELSE {})
-                    \cup (IF o.faults = 0 /\ Stamp(t) > c /\ \E tr \in RevTimes(ev.ikid, c) : t > tr + R THEN {"C05.RevokedIKBounded"} ELSE {})
-                    \cup (IF o.faults = 0 /\ ikr # {} /\ Stamp(t) > c /\ Stamp(t) > par0 /\ \E tr \in RevTimes(skid, par0) : t > tr + 2 * R
+                    \cup (IF o.faults = 0 /\ Stamp(t) > c /\ \E tr \in RevTimes(ev.ikid, c) : t > tr + R /\ sft[ev.p] < tr THEN {"C05.RevokedIKBounded"} ELSE {})
+                    \cup (IF o.faults = 0 /\ ikr # {} /\ Stamp(t) > c /\ Stamp(t) > par0 /\ \E tr \in RevTimes(skid, par0) : t > tr + 2 * R /\ sft[ev.p] < tr
                           THEN {IF dref THEN "C05.RevokedSKBounded/decrypt-refresh" ELSE "C05.RevokedSKBounded"} ELSE {})
                     \* C20: latest key of this scope fetched within the interval, not known revoked, not expired => no external call
                     \cup (IF warm /\ t <= f.at + R /\ ~f.revoked /\ t <= lat[lk] + E /\ o.calls # 0 THEN {"C20.NoCallsWithinInterval"} ELSE {})
@@ -231,7 +236,7 @@ Ret == /\ IsEv("ret")
              /\ lat' = IF ev.kind = "Enc" /\ ev.ok THEN (<<o.scope, ev.ikid>> :> ev.ikCreated) @@ lat ELSE lat
              /\ kdec' = IF o.faults = 0 /\ o.skscope # "none" THEN [k \in {<<o.skscope, kd>> : kd \in o.kdecs} |-> now] @@ kdec ELSE kdec
              /\ ops' = [ops EXCEPT ![ev.p] = NoOp]
-       /\ UNCHANGED <<par, now, store, revAt, lv, role, pairs>>
+       /\ UNCHANGED <<par, now, store, revAt, lv, role, pairs, sft>>
 
 Final == /\ IsEv("final")
          /\ Report((IF ev.live > 0 \/ (\E s \in lv : s.p = ev.p) THEN {"C09.ReleasedOnClose"} ELSE {})
@@ -239,7 +244,7 @@ Final == /\ IsEv("final")
                    \cup (IF ev.useAfterClose > 0 THEN {"C09.TouchedAfterRelease"} ELSE {})
                    \cup (IF ev.mutated > 0 THEN {"C14.RecordOverwritten"} ELSE {}))
          /\ lv' = {s \in lv : s.p # ev.p}
-         /\ UNCHANGED <<par, now, store, revAt, ops, fet, lat, kdec, role, pairs>>
+         /\ UNCHANGED <<par, now, store, revAt, ops, fet, lat, kdec, role, pairs, sft>>
 
 MNext == Reset \/ Tick \/ Revoke \/ Bookkeeping \/ IFault \/ Restart \/ Start \/ Ms \/ Kms \/ Aead \/ Alloc \/ Free \/ Misuse \/ Ret \/ Final
 MSpec == MInit /\ [][MNext]_mvars
